@@ -246,7 +246,7 @@ func Plan(prop, tier string, seed uint64) []RunConfig {
 	case "C07":
 		reps := 4
 		if thorough {
-			reps = 10
+			reps = 60
 		}
 		for rep := 0; rep < reps; rep++ {
 			for _, w := range []string{WFactory, WPowerOn, WPeriod} {
@@ -265,14 +265,14 @@ func Plan(prop, tier string, seed uint64) []RunConfig {
 		// the results the runners actually returned)
 		nreal := 6
 		if thorough {
-			nreal = 60
+			nreal = 400
 		}
 		for i := 0; i < nreal; i++ {
 			out = append(out, RunConfig{Prop: prop, Workflow: WPeriod, Workers: 1, Policy: simctl.Policy{Kind: "first"},
 				Stream: prfStream(r), Chunk: ChunkSpec{Kind: "full"}, Fault: FaultSpec{Kind: "none"}, Runners: RunnerSpec{Mode: "real"}, ReadYield: 1, Note: "real-runners"})
 		}
 		if thorough {
-			for i := 0; i < 4; i++ {
+			for i := 0; i < 24; i++ {
 				out = append(out, RunConfig{Prop: prop, Workflow: WPowerOn, Workers: 1, Policy: simctl.Policy{Kind: "first"},
 					Stream: prfStream(r), Chunk: ChunkSpec{Kind: "full"}, Fault: FaultSpec{Kind: "none"}, Runners: RunnerSpec{Mode: "real"}, ReadYield: 1, Note: "real-runners"})
 			}
@@ -280,7 +280,7 @@ func Plan(prop, tier string, seed uint64) []RunConfig {
 	case "C08":
 		scheds := 8
 		if thorough {
-			scheds = 40
+			scheds = 160
 		}
 		for _, w := range []string{WPeriodFast, WPowerOnFast, WFactoryFast} {
 			for _, sc := range scenarios(w, r, thorough) {
@@ -294,7 +294,7 @@ func Plan(prop, tier string, seed uint64) []RunConfig {
 		}
 		nreal := 8
 		if thorough {
-			nreal = 80
+			nreal = 600
 		}
 		for i := 0; i < nreal; i++ {
 			W := workerChoices[r.Intn(len(workerChoices))]
@@ -336,14 +336,14 @@ func Plan(prop, tier string, seed uint64) []RunConfig {
 			}
 			nrand := 4
 			if thorough {
-				nrand = 40
+				nrand = 150
 			}
 			for i := 0; i < nrand; i++ {
 				offs = append(offs, int64(r.Uint64()%uint64(R)))
 			}
 			reps := 1
 			if thorough {
-				reps = 4
+				reps = 12
 			}
 			for _, f := range offs {
 				for _, kind := range kinds {
@@ -405,7 +405,7 @@ func Plan(prop, tier string, seed uint64) []RunConfig {
 	case "C10":
 		reps := 6
 		if thorough {
-			reps = 60
+			reps = 500
 		}
 		for _, w := range AllWorkflows {
 			if w == WSingle {
@@ -441,7 +441,7 @@ func Plan(prop, tier string, seed uint64) []RunConfig {
 		}
 		nsingle := 300
 		if thorough {
-			nsingle = 6000
+			nsingle = 60000
 		}
 		for i := 0; i < nsingle; i++ {
 			nb := 16 + r.Intn(4081)
@@ -459,7 +459,7 @@ func Plan(prop, tier string, seed uint64) []RunConfig {
 	case "C11":
 		reps := 1
 		if thorough {
-			reps = 12
+			reps = 80
 		}
 		for rep := 0; rep < reps; rep++ {
 			for nb := 0; nb <= 4096; nb++ {
@@ -524,7 +524,7 @@ func singleCase(prop string, nb int, r *simctl.Rand) RunConfig {
 func GroupSize(prop, tier string) int {
 	if prop == "C08" {
 		if tier == "thorough" {
-			return 40
+			return 160
 		}
 		return 8
 	}
@@ -607,7 +607,7 @@ func planC14(prop string, thorough bool, r *simctl.Rand) []RunConfig {
 	nbig := 4
 	if thorough {
 		big = []string{WPowerOn, WPowerOnFast, WFactory, WFactoryFast}
-		nbig = 48
+		nbig = 240
 	}
 	for i := 0; i < nbig; i++ {
 		w := big[i%len(big)]
